@@ -24,7 +24,8 @@ ID = "C03"
 THEOREMS = ["C03_gen_complete", "C03_gen_nodup", "C03_gen_count_once", "C03_gen_in_table",
             "C03_generated_owns_id", "C03_table_legal_exact", "C03_legal_owns_id",
             "C03_populate_reaches_all", "C03_legal_filter_same", "C03_slides_tie",
-            "C03_generator_complete_rulebook", "C03_table_filter_is_rulebook"]
+            "C03_generator_complete_rulebook", "C03_table_filter_is_rulebook",
+            "C03_source_generator_complete", "C03_source_lists_are_model"]
 MODEL_TARGETS = ["model/Tak.vo", "model/Harness.vo", "model/Lit.vo"]
 TRUSTED_BASE = [
     "legal := exists p', move p m = Some p' (the executable rules of model/Tak.v; their equivalence with the rulebook relation is C01's theorem)",
@@ -681,3 +682,9 @@ def replay(run, rp):
             "times_in_all_moves": _safe(lambda: collections.Counter(p.all_moves())[m]),
             "in_table": (None if _table_set(n) is None else m in _table_set(n)),
             "hits": [(c, takio.j_move(mm) if mm is not None else None, d) for c, mm, d in hits[:10]]}
+
+
+def pregen(run):
+    """regenerate gen/GameGen.v (the shallow embedding of game.py/moves.py/pieces.py) from the tree under test"""
+    from . import c01gen
+    return c01gen.pregen(run)
